@@ -735,9 +735,9 @@ func main() {
 	if r.Quick() {
 		r.SetDeadline(48 * time.Second)
 	} else {
-		// full alphabet to depth 3, reduced alphabet to depth 5, then the full alphabet on every state
+		// full alphabet to depth 3, reduced alphabet to depth 6, then the full alphabet on every state
 		// of depth 3 (= all histories of length 4 over the full alphabet), deadline-capped
-		fullDepth, maxDepth, seedDepth, wide = 3, 5, 4, true
+		fullDepth, maxDepth, seedDepth, wide = 3, 6, 4, true
 		asyncAll, asyncRed, asyncSeed = 2, 3, 2
 		r.SetDeadline(13 * time.Minute)
 	}
